@@ -30,12 +30,13 @@ const (
 	KBytes                   // []byte where it is provided, []uint8 where it is consumed (one type, two spellings)
 	KAny                     // interface{} where provided, any where consumed
 	KFuncT                   // func(n int) int where provided, func(int) int where consumed
+	KAnon                    // struct{ V uint64 }: an unnamed struct type
 	numKinds
 )
 
 // Unnamed reports kinds that are unnamed Go types: two value types of such a
 // kind would be one type, so a flow has at most one of each.
-func (k TKind) Unnamed() bool { return k >= KU64 && k <= KArr || k >= KBytes && k <= KFuncT }
+func (k TKind) Unnamed() bool { return k >= KU64 && k <= KArr || k >= KBytes && k <= KAnon }
 
 // Spelling of a function expression.
 const (
@@ -81,6 +82,9 @@ type Flow struct {
 	Emitters    []int  `json:"emitters,omitempty"` // shape of the WithEmitter options, see print
 	OptOrder    []int  `json:"opt_order,omitempty"`
 	SplitParams bool   `json:"split_params,omitempty"` // two cff.Params options
+	// SplitResults: two cff.Results options (1: next to each other, 2: the
+	// second one after all other options).
+	SplitResults int `json:"split_results,omitempty"`
 	// ResultsVia: the Results targets are fields reached through a pointer
 	// (&res.r0); the program re-points res when the first user function runs.
 	ResultsVia bool `json:"results_via,omitempty"`
